@@ -8,6 +8,7 @@
     c08.params_eq <n> <modulus>                     constructor agreement (1/0 flags)
     c08.redc <n> <lower> <upper> <modulus> <k>      public `montgomery_reduction`
     c08.mul_mod <kind> <n> <a> <b> <p>              `Uint::mul_mod` / `BoxedUint::mul_mod`
+    c08.hook.amm / c08.hook.amm_by_one / c08.hook.redc_inner   crate-internal functions (hooks requested)
   Every line is printed as `L1 ;; L0` (L1 = limb model, L0 = what the property demands).
 -/
 import CB.Driver.Util
@@ -167,6 +168,23 @@ def dispatchC08 : Dispatch := fun op args =>
         some (s!"{limbsHex r} ;; {natToHex ((a * b) % p)}")
       | none => badArgs
     | _, _, _, _ => badArgs
+  -- crate-internal functions (need the hooks requested in notes/C08.md; not generated until they exist)
+  | "c08.hook.amm", [n, x, y, m, k] =>
+    match n.toNat?, hexToNat? x, hexToNat? y, hexToNat? m, hexToNat? k with
+    | some n, some x, some y, some m, some k =>
+      some (limbsHex (almostMontgomeryMul (toLimbs n x) (toLimbs n y) (toLimbs n m) k))
+    | _, _, _, _, _ => badArgs
+  | "c08.hook.amm_by_one", [n, x, m, k] =>
+    match n.toNat?, hexToNat? x, hexToNat? m, hexToNat? k with
+    | some n, some x, some m, some k =>
+      some (limbsHex (almostMontgomeryMulByOne (toLimbs n x) (toLimbs n m) k))
+    | _, _, _, _ => badArgs
+  | "c08.hook.redc_inner", [n, lo, hi, m, k] =>
+    match n.toNat?, hexToNat? lo, hexToNat? hi, hexToNat? m, hexToNat? k with
+    | some n, some lo, some hi, some m, some k =>
+      let r := redcInner (toLimbs n hi) (toLimbs n lo) (toLimbs n m) k
+      some s!"{limbsHex r.1} {natToHex r.2}"
+    | _, _, _, _, _ => badArgs
   | _, _ => none
 
 end CB
